@@ -76,7 +76,18 @@ func runC03Reject(seed int64) string {
 	w := newWorkspace()
 	defer w.cleanup()
 	w.writeCSVBook("", baseBook())
-	w.writeCSVBook("", bookSpec{Name: "Fuzz", Sheets: []sheetSpec{gs.spec}})
+	// in half of the cases the workbook has other, well-formed worksheets before and after the one that gets spoilt
+	// (a failure of one worksheet must fail the run whatever is converted after it)
+	var before, after []sheetSpec
+	if r.Intn(2) == 0 {
+		before = []sheetSpec{{Name: "AlphaConf", Rows: [][]string{{"ID", "Name"}, {"map<uint32, Alpha>", "string"}, {"id", "name"}, {"1", "a"}, {"2", "b"}}}}
+		after = []sheetSpec{{Name: "OmegaConf", Rows: [][]string{{"ID", "Num"}, {"map<uint32, Omega>", "int32"}, {"id", "num"}, {"1", "10"}}},
+			{Name: "ZetaConf", Rows: [][]string{{"ID"}, {"[Zeta]uint32"}, {"id"}, {"5"}}}}
+	}
+	sheetsWith := func(mid sheetSpec) []sheetSpec {
+		return append(append(append([]sheetSpec{}, before...), mid), after...)
+	}
+	w.writeCSVBook("", bookSpec{Name: "Fuzz", Sheets: sheetsWith(gs.spec)})
 	ro := runOpts{}
 	if err := w.genProto(ro); err != nil {
 		return "unspec protogen-rejects"
@@ -90,7 +101,7 @@ func runC03Reject(seed int64) string {
 		bad[i] = append([]string{}, rows[i]...)
 	}
 	bad[k][j] = junk
-	w.writeCSVBook("", bookSpec{Name: "Fuzz", Sheets: []sheetSpec{{Name: "HeroConf", Rows: bad}}})
+	w.writeCSVBook("", bookSpec{Name: "Fuzz", Sheets: sheetsWith(sheetSpec{Name: "HeroConf", Rows: bad})})
 	os.RemoveAll(w.Conf)
 	os.MkdirAll(w.Conf, 0o755)
 	err := w.genConf(ro)
@@ -105,6 +116,9 @@ func runC03Reject(seed int64) string {
 		layout = "struct"
 	}
 	tag := " [" + typ + "," + layout + "]"
+	if before != nil {
+		tag = " [" + typ + "," + layout + ",sheets]"
+	}
 	if err == nil {
 		return "ACCEPTED " + encStr(junk) + " in " + encStr(rows[0][j]) + ":" + encStr(rows[1][j]) + tag
 	}
